@@ -115,3 +115,34 @@ def split_table(prog, fnpath):
     for v in tinfo.get("variants", []):
         out[int(v["discr"])] = (v["name"], walk(L, int(v["discr"]), {}))
     return f, out
+
+
+def confidential_views(c, prog, rule):
+    """variant tables of the accessors of confidential::{Value, Asset, Nonce} (variants Null=0, Explicit=1, Confidential=2):
+    is_null / is_explicit / is_confidential are true on exactly their variant, explicit() and commitment() return the payload of
+    exactly their variant; the blinding-factor wrappers are views of the wrapped tweak. Evaluated per discriminant value, so an
+    `if let`, a `match` with three arms or `matches!` give the same table."""
+    from .c15 import Fn, decide
+    from ..mir import show, Prov
+    want = {"is_null": {0: "1", 1: "0", 2: "0"}, "is_explicit": {0: "0", 1: "1", 2: "0"}, "is_confidential": {0: "0", 1: "0", 2: "1"},
+            "explicit": {0: "std::option::Option::None{}", 1: "std::option::Option::Some{arg1.0}", 2: "std::option::Option::None{}"},
+            "commitment": {0: "std::option::Option::None{}", 1: "std::option::Option::None{}", 2: "std::option::Option::Some{arg1.0}"}}
+    for ty in ("Value", "Asset", "Nonce"):
+        for m, tab in want.items():
+            fnp = "confidential::%s::%s" % (ty, m)
+            F = Fn(prog, fnp)
+            got = {}
+            for d in (0, 1, 2):
+                r = decide(F.L, {"d": d}, {"discr(arg1)": "d"})
+                got[d] = r[1] if r[0] == "ret" else str(r)
+            norm = {d: {"true": "1", "false": "0", "True": "1", "False": "0"}.get(v, v) for d, v in got.items()}
+            c.inst(rule, "%s::%s" % (ty, m), norm == tab, "table over (Null, Explicit, Confidential): %s" % got, F.f.where(), fnp)
+    views = {"confidential::AssetBlindingFactor::into_inner": "arg1.0", "confidential::ValueBlindingFactor::into_inner": "arg1.0",
+             "confidential::AssetBlindingFactor::zero": "confidential::AssetBlindingFactor::AssetBlindingFactor{secp256k1_zkp::ZERO_TWEAK}",
+             "confidential::ValueBlindingFactor::zero": "confidential::ValueBlindingFactor::ValueBlindingFactor{secp256k1_zkp::ZERO_TWEAK}",
+             "confidential::AssetBlindingFactor::new": "confidential::AssetBlindingFactor::AssetBlindingFactor{secp256k1_zkp::Tweak::new(arg1)}",
+             "confidential::ValueBlindingFactor::new": "confidential::ValueBlindingFactor::ValueBlindingFactor{secp256k1_zkp::Tweak::new(arg1)}"}
+    for fnp, w in views.items():
+        f = prog.fn(fnp)
+        t = show(Prov(f.body).local(0), -30)
+        c.inst(rule, fnp.split("::", 1)[1], t == w, "returns %s" % t[:160], f.where(), fnp)
